@@ -80,10 +80,11 @@ enum AOp {
 }
 
 fn keys_universe(thorough: bool) -> Vec<&'static str> {
+    // "FFEE.PACK": same letters in another case (a suffix match must be exact)
     if thorough {
-        vec!["1-aaaa.delta", "1-aabb.delta", "ffee.pack", "ff00.pack"]
+        vec!["1-aaaa.delta", "1-aabb.delta", "ffee.pack", "ff00.pack", "FFEE.PACK"]
     } else {
-        vec!["1-aaaa.delta", "1-aabb.delta", "ffee.pack"]
+        vec!["1-aaaa.delta", "ffee.pack", "FFEE.PACK"]
     }
 }
 
